@@ -10,6 +10,14 @@ claimed = {
    "Storage-fault enumeration between persist and restore of a calculated (and signed) envelope: thorough enumerates every JSON pointer of every corpus envelope with every applicable single content-changing fault (alter leaf, remove member, add member, swap/delete/duplicate array element, raw bit flip inside value bytes) and seeded content-preserving re-encodings (member order, whitespace, escape style); quick takes a seeded sample of pointer blocks. Oracle: re-encodings validate and recalculate to the same digest; every content change is refused on restore (parse error, validation error or digest error) and, after recalculation, yields a different digest whenever the recalculated content differs.",
    "Faults are restricted to changes that are semantic under any reading (no case-only changes, no renames, no unknown member names). 'Add member' candidates come from the corpus, not the schema files. One open known finding ($regime removal).",
    "deterministic fault enumeration over durable bytes (single storage fault per restore) with digest/validation oracle"),
+ "C09": ("exploration", "§5 C09",
+   "Seeded deterministic-simulation histories sign → modify → present, checked against a reference model of what the signature covers (a harness-owned snapshot of the seven header fields taken at signing). Every history presents the envelope to all seven verification entry points (Envelope.Verify, Envelope.VerifySignature, cli.Verify over a chunked simulated stream, bulk verify via cli.Bulk, HTTP /verify and /bulk handlers, the `gobl verify` cobra command) with the signer's key, another key and no key; an enumerated floor covers each header field × {alter, remove, add} × {with, without recalculation} per base document; longer seeded histories add crash-restart, lost write and re-encoding between signing and presentation. All entry points must agree with the model: success exactly when the header still contains what was signed, the key is the signer's and the envelope validates.",
+   "Single-signer envelopes. The library's Verify is not asserted on documents edited without recalculation (header-only check by design); CLI paths must refuse those. Keys are fixed JWK constants; signature bytes are never compared, only outcomes.",
+   "deterministic simulation: sign/modify/restart histories against a header-snapshot reference model, cross-checked over 7 entry points"),
+ "C10": ("exploration", "§5 C10",
+   "Refinement of the envelope API against a small executable reference model (digest-matches fact, document validity facts, signature list with header snapshots, header rules) over histories: exhaustive enumeration of every operation sequence up to length 3 (quick) / 5 (thorough) over a 14-operation alphabet on two base documents, plus seeded longer histories over 12 base documents of 6 document types with crash-restart, lost-write, re-encoding and damaged-signature-list faults injected between operations. Each step's outcome (ok / error key / signature count) must equal the model's prediction; after every step every entry of the signature list must be a real JWS, or, when the list was damaged on disk, the envelope must be refused by validation and verification without panicking.",
+   "Which documents are structurally valid is asked of the implementation on a fresh parse of the same bytes (the property is about how the facts combine over histories). After a signing that fails before appending, 'unchanged' and 'unsigned' are both accepted.",
+   "deterministic simulation: exhaustive short histories + seeded long histories with restart faults, refinement against an executable reference model"),
 }
 na = {
  "C01": "pure function of the document: totals vs exact decimal arithmetic has no schedule, clock, fault or history in it (the only clock input, a missing issue date, enters no total)",
@@ -26,8 +34,6 @@ na = {
 }
 pending = {
  "C07": "check under construction in this session (will be claimed; see DESIGN.md §5)",
- "C09": "check under construction in this session (will be claimed; see DESIGN.md §5)",
- "C10": "check under construction in this session (will be claimed; see DESIGN.md §5)",
  "C12": "check under construction in this session (will be claimed; see DESIGN.md §5)",
  "C14": "check under construction in this session (will be claimed; see DESIGN.md §5)",
  "C15": "check under construction in this session (will be claimed; see DESIGN.md §5)",
